@@ -271,6 +271,8 @@ class LfAuto(Auto):
         if ev[0] == "narrow" and ev[1] == "look":
             names = dict(ev[2][2])
             if set(names) == {"Some"} and names["Some"] is not None and names["Some"][0] == "byte" and names["Some"][1] == (1 << 10):
+                if consumed == "maybe":
+                    consumed = False  # (an unknown earlier advance: a line feed seen ahead of the cursor now is a new one)
                 tag = ev[3] if len(ev) > 3 else "look"
                 if "@" in tag:
                     k = int(tag.split("@")[1])
@@ -283,6 +285,14 @@ class LfAuto(Auto):
             return state
         name = ev[1]
         if name == "line_at_offset":
+            # counting the line *after* the cursor moved over the line feed is only right when the cursor stands
+            # directly behind it and the new line is said to start at the cursor (`advance(1); line_at_offset(0)`)
+            if consumed in ("inexact", "maybe"):
+                self._flag(where, "the line start is set after the cursor moved past the line feed by more than the line feed itself (the column of everything on the next line is off by the skipped bytes)")
+            elif consumed is True:
+                a = ev[2][1] if len(ev[2]) > 1 else TOP
+                if a != ("i", 0):
+                    self._flag(where, "the cursor stands directly behind the consumed line feed, so the new line starts at offset 0, not at %s" % A.show(a))
             return (None, False)
         if name == "advance":
             n = ev[2][1] if len(ev[2]) > 1 else TOP
@@ -290,22 +300,26 @@ class LfAuto(Auto):
                 return state
             if pending[0] == "num":
                 if n[0] == "i":
-                    if n[1] > pending[1]:
+                    if n[1] == pending[1] + 1:
                         return (None, True)
+                    if n[1] > pending[1]:
+                        return (None, "inexact")
                     return (("num", pending[1] - n[1]), consumed)
-                return (None, consumed)
+                return (None, consumed or "maybe")
             if pending[0] == "var" and pending[1] == where[1].id:
                 t = where[1].term(where[2])
                 e = sym(where[1]).operand(t["args"][1]) if len(t.get("args", [])) > 1 else None
                 a = affine1(e) if e else None
                 if a and a[0] == pending[2]:
-                    if a[1] > 0:
+                    if a[1] == 1:
                         return (None, True)
+                    if a[1] > 0:
+                        return (None, "inexact")
                     return (None, consumed)
-            return (None, consumed)
-        if name in ("give_up", "give_up_at") and consumed:
+            return (None, consumed or "maybe")
+        if name in ("give_up", "give_up_at") and consumed in (True, "inexact"):
             self._flag(where, "an error is reported after a line feed was consumed but not counted (wrong line)")
-        if name == "look" and consumed:
+        if name == "look" and consumed in (True, "inexact"):
             self._flag(where, "further input is examined after a line feed was consumed but not counted")
             return (pending, False)
         return state
@@ -343,7 +357,7 @@ def run_r3(ctx, rule):
             continue
         bad = None
         for av, st in res:
-            if st[1]:
+            if st[1] in (True, "inexact"):
                 bad = "returns after consuming a line feed without counting it"
         if auto.viol:
             k0 = sorted(auto.viol)[0]
